@@ -33,7 +33,7 @@ mod verif_layout {
             if l.shape[i] == 0 {
                 empty = true;
             } else {
-                m += (l.shape[i] as u128 - 1) * (l.strides[i] as u128);
+                m = m.saturating_add((l.shape[i] as u128 - 1) * (l.strides[i] as u128));
             }
         }
         if empty { None } else { Some(m) }
@@ -52,7 +52,7 @@ mod verif_layout {
     fn z_offset<const N: usize>(l: &NdLayout<N>, idx: [usize; N]) -> u128 {
         let mut o: u128 = 0;
         for i in 0..N {
-            o += (idx[i] as u128) * (l.strides[i] as u128);
+            o = o.saturating_add((idx[i] as u128) * (l.strides[i] as u128));
         }
         o
     }
@@ -114,7 +114,9 @@ mod verif_layout {
     pub fn dyn_offset_exact_2() {
         let l: NdLayout<2> = any_layout_small();
         let d = l.as_dyn();
-        let idx: [usize; 2] = kani::any();
+        // indices up to 255: includes out-of-bounds ones (sizes are <= 5); products cannot wrap
+        let (i0, i1): (u8, u8) = (kani::any(), kani::any());
+        let idx: [usize; 2] = [i0 as usize, i1 as usize];
         assert!(d.offset(&idx) == l.offset(idx));
         assert!(d.offset(&idx[..1]).is_none());
         assert!(d.min_data_len() == l.min_data_len());
